@@ -31,7 +31,7 @@ Proof. exact chain_documented_all. Qed.
 
 (* the same per entry point: whatever class the body throws, the documented enumerator is returned *)
 Theorem entry_returns_documented_code : forall en, In en entries -> e_has_try en = true -> forall c,
-  exists cl, handles (e_chain en) (of_class c) = Some cl /\ c_ret cl = Code (documented_code c).
+  exists cl, handles (e_chain en) (of_class c) = Some cl /\ reported (Some cl) = Some (documented_code c).
 Proof. exact entry_returns_documented. Qed.
 
 (* --- the entry points --- *)
@@ -43,7 +43,7 @@ Theorem never_escapes_partial : forall en, In en entries -> ~ In (e_name en) exe
   forall o, admissible en o ->
   match o with
   | Returns v => run_entry en o = (Returned v, [])
-  | Throws e => exists c z, fst (run_entry en o) = ReturnedCode c /\ In (E_notify c) (snd (run_entry en o))
+  | Throws e => exists c z, error_result (fst (run_entry en o)) c /\ In (E_notify c) (snd (run_entry en o))
                             /\ value_of enum_error_code c = Some z /\ (z < 0)%Z
   end.
 Proof. exact never_escapes_partial_l. Qed.
@@ -88,7 +88,15 @@ Proof. exact chains_timeouts_reset. Qed.
 Theorem no_dangling_outputs_partial : forall n, In n dangling_outputs -> exempt_getter n = true.
 Proof. intros n H. pose proof dangling_only_getters as A. rewrite forallb_forall in A. exact (A n H). Qed.
 
-Theorem timeouts_reported_as_timeout_partial :
-  forallb (fun p => match snd p with CT_class c => ecode_eqb (documented_code c) TIMEOUT_EXCEPTION | _ => false end)
-          timeout_registrations = true.
-Proof. exact (proj1 timeout_registrations_timeout_class). Qed.
+(* time-outs (full statement since /repo 5150800): ppl_set_timeout registers a timeout_exception and
+   ppl_set_deterministic_timeout a deterministic_timeout_exception; both are reported as PPL_TIMEOUT_EXCEPTION
+   and the handler selected for the registered class disarms the watchdog that expired before notifying *)
+Theorem timeouts_reported_as_timeout :
+  timeout_registrations = [("ppl_set_deterministic_timeout", CT_class DetTimeout); ("ppl_set_timeout", CT_class Timeout)]
+  /\ forallb (fun p => match snd p with CT_class c => ecode_eqb (documented_code c) TIMEOUT_EXCEPTION | _ => false end)
+              timeout_registrations = true
+  /\ forallb resets_own_watchdog timeout_registrations = true.
+Proof.
+  split; [exact timeout_registration_holds|]. split;
+  [exact (proj1 timeout_registrations_timeout_class) | exact registered_handlers_reset_own_watchdog].
+Qed.
